@@ -7,16 +7,20 @@
    are modelled with separate acquire / release steps on the paths as coded:
      wireConnMu            (iscp.Conn): held by OpenUpstream / SendMetadata ... while they wait for the broker
      downstreams.mu (RW)   (wire.ClientConn): RLock per dispatched DownstreamMetadata, Lock on open/close of a downstream
+     Upstream.mu           (iscp.Upstream): held by processResult while it hands a chunk result to the sender that waits for it;
+                           WriteDataPoints, Flush and State() take it as well (kinds "write", "state")
    Time is abstract: each caller has a context deadline that may fire at any moment after the call started
    (`expired`), and a call still blocked after its deadline fired in a wait that is not context-aware is an OVERRUN.
 
    Model switches: LeakRLock (metadata for an unsubscribed source node leaves the read lock held - as coded at the
    pinned commit), CloseWaitWakes (upstream Close's ack wait is woken by context / close timeout - FALSE as coded at
-   the pinned commit), MuHeldDuringWait (wireConnMu is held while waiting for the broker's response - as coded).    *)
+   the pinned commit), MuHeldDuringWait (wireConnMu is held while waiting for the broker's response - as coded),
+   ResultChBuffered (the per-chunk result channel has room for the result, so the hand-over never waits for the sender - FALSE as coded
+   at the pinned commit: a result that arrives after the sender's ack timeout blocks the result loop with Upstream.mu held).        *)
 EXTENDS Integers, Sequences, FiniteSets, TLC
 
 CONSTANTS Kinds,           \* function caller -> kind in {"open","meta","closeUp","read","closeDown","openDown"}
-          LeakRLock, CloseWaitWakes, MuHeldDuringWait,
+          LeakRLock, CloseWaitWakes, MuHeldDuringWait, ResultChBuffered,
           MaxMeta          \* number of DownstreamMetadata messages the adversary sends
 
 Callers == DOMAIN Kinds
@@ -30,27 +34,33 @@ VARIABLES pc,        \* caller -> "idle" | "wantMu" | "wait" | "ackWait" | "want
           dsw,       \* writer holding downstreams.mu ("none" or caller)
           resp,      \* caller -> what the adversary does with its request ("none" until sent)
           nmeta,     \* metadata messages dispatched so far
-          acked      \* the upstream's chunk has been acknowledged
-vars == <<pc, expired, overrun, mu, rlocks, dsw, resp, nmeta, acked>>
+          acked,     \* the upstream's chunk has been acknowledged
+          umu,       \* holder of Upstream.mu ("none", "rl" = the result loop, or a caller)
+          waiter,    \* the chunk's sender: "waiting" for its result | "gone" (ack timeout) | "served"
+          rl         \* result loop: "idle" | "handing" (holds Upstream.mu, hands the result over) | "done"
+vars == <<pc, expired, overrun, mu, rlocks, dsw, resp, nmeta, acked, umu, waiter, rl>>
+ust == <<umu, waiter, rl>>
 
 Init == /\ pc = [p \in Callers |-> "idle"] /\ expired = [p \in Callers |-> FALSE] /\ overrun = [p \in Callers |-> FALSE]
         /\ mu = "none" /\ rlocks = 0 /\ dsw = "none" /\ resp = [p \in Callers |-> "none"] /\ nmeta = 0 /\ acked = FALSE
+        /\ umu = "none" /\ waiter = "waiting" /\ rl = "idle"
 
 NeedsMu(p) == Kinds[p] \in {"open", "meta", "openDown"}
 
 Call(p) == /\ pc[p] = "idle"
-           /\ pc' = [pc EXCEPT ![p] = CASE NeedsMu(p) -> "wantMu" [] Kinds[p] = "closeUp" -> "ackWait" [] OTHER -> "wait"]
-           /\ UNCHANGED <<expired, overrun, mu, rlocks, dsw, resp, nmeta, acked>>
+           /\ pc' = [pc EXCEPT ![p] = CASE NeedsMu(p) -> "wantMu" [] Kinds[p] = "closeUp" -> "ackWait"
+                                          [] Kinds[p] \in {"write", "state"} -> "wantUmu" [] OTHER -> "wait"]
+           /\ UNCHANGED <<expired, overrun, mu, rlocks, dsw, resp, nmeta, acked, ust>>
 
 \* sync.Mutex.Lock is not context-aware
 TakeMu(p) == /\ pc[p] = "wantMu" /\ mu = "none"
              /\ mu' = (IF MuHeldDuringWait THEN p ELSE "none") /\ pc' = [pc EXCEPT ![p] = "wait"]
-             /\ UNCHANGED <<expired, overrun, rlocks, dsw, resp, nmeta, acked>>
+             /\ UNCHANGED <<expired, overrun, rlocks, dsw, resp, nmeta, acked, ust>>
 
 \* the adversary decides what happens to the request of p
 Decide(p, a) == /\ pc[p] = "wait" /\ resp[p] = "none" /\ Kinds[p] # "read"
                 /\ resp' = [resp EXCEPT ![p] = a]
-                /\ UNCHANGED <<pc, expired, overrun, mu, rlocks, dsw, nmeta, acked>>
+                /\ UNCHANGED <<pc, expired, overrun, mu, rlocks, dsw, nmeta, acked, ust>>
 
 \* after the response (or the context) a downstream open/close updates the downstream table under the write lock
 NextAfterWait(p) == IF Kinds[p] \in {"openDown", "closeDown"} THEN "wantDsMu" ELSE "done"
@@ -62,42 +72,62 @@ WaitReturns(p) ==
        \/ expired[p]
     /\ pc' = [pc EXCEPT ![p] = IF resp[p] = "answer" THEN NextAfterWait(p) ELSE "done"]
     /\ mu' = IF mu = p THEN "none" ELSE mu
-    /\ UNCHANGED <<expired, overrun, rlocks, dsw, resp, nmeta, acked>>
+    /\ UNCHANGED <<expired, overrun, rlocks, dsw, resp, nmeta, acked, ust>>
 
 \* upstream Close: wait for all acks on the condition variable
-AckArrives == /\ ~acked /\ acked' = TRUE /\ UNCHANGED <<pc, expired, overrun, mu, rlocks, dsw, resp, nmeta>>
+AckArrives == /\ ~acked /\ acked' = TRUE /\ UNCHANGED <<pc, expired, overrun, mu, rlocks, dsw, resp, nmeta, ust>>
 AckWaitReturns(p) ==
     /\ pc[p] = "ackWait"
     /\ acked \/ (CloseWaitWakes /\ expired[p])
     /\ pc' = [pc EXCEPT ![p] = "wait"]
-    /\ UNCHANGED <<expired, overrun, mu, rlocks, dsw, resp, nmeta, acked>>
+    /\ UNCHANGED <<expired, overrun, mu, rlocks, dsw, resp, nmeta, acked, ust>>
 
 \* sync.RWMutex.Lock: waits for readers and writers, not context-aware
 TakeDsMu(p) == /\ pc[p] = "wantDsMu" /\ rlocks = 0 /\ dsw = "none"
                /\ pc' = [pc EXCEPT ![p] = "done"]
-               /\ UNCHANGED <<expired, overrun, mu, rlocks, dsw, resp, nmeta, acked>>
+               /\ UNCHANGED <<expired, overrun, mu, rlocks, dsw, resp, nmeta, acked, ust>>
 
 \* readDownstreamMetadataLoop handles one message: RLock, look up alias and source, deliver, RUnlock
 Meta(known) == /\ nmeta < MaxMeta /\ dsw = "none"
                /\ nmeta' = nmeta + 1
                /\ rlocks' = IF ~known /\ LeakRLock THEN rlocks + 1 ELSE rlocks
-               /\ UNCHANGED <<pc, expired, overrun, mu, dsw, resp, acked>>
+               /\ UNCHANGED <<pc, expired, overrun, mu, dsw, resp, acked, ust>>
+
+\* ---- Upstream.mu: result hand-over and the calls that need the stream lock
+\* the sender's ack timeout fires: it stops waiting for the result
+WaiterGivesUp == /\ waiter = "waiting" /\ rl = "idle" /\ waiter' = "gone"
+                 /\ UNCHANGED <<pc, expired, overrun, mu, rlocks, dsw, resp, nmeta, acked, umu, rl>>
+\* the broker's acknowledgement arrives (in time or late): processResult takes Upstream.mu
+ResultArrives == /\ rl = "idle" /\ umu = "none" /\ rl' = "handing" /\ umu' = "rl"
+                 /\ UNCHANGED <<pc, expired, overrun, mu, rlocks, dsw, resp, nmeta, acked, waiter>>
+\* ch <- result: completes if the sender still waits, or if the channel is buffered; otherwise processResult stays blocked with the lock
+HandOver == /\ rl = "handing" /\ (waiter = "waiting" \/ ResultChBuffered)
+            /\ rl' = "done" /\ umu' = "none" /\ waiter' = IF waiter = "waiting" THEN "served" ELSE waiter
+            /\ UNCHANGED <<pc, expired, overrun, mu, rlocks, dsw, resp, nmeta, acked>>
+\* WriteDataPoints / Flush / State(): sync.(RW)Mutex, not context-aware; the critical section itself is short
+TakeUmu(p) == /\ pc[p] = "wantUmu" /\ umu = "none"
+              /\ pc' = [pc EXCEPT ![p] = "done"]
+              /\ UNCHANGED <<expired, overrun, mu, rlocks, dsw, resp, nmeta, acked, ust>>
 
 \* the context deadline of p fires; if p sits in a wait that does not look at the context this is an overrun
 Blind(p) == \/ (pc[p] = "wantMu" /\ mu # "none")
             \/ (pc[p] = "wantDsMu" /\ (rlocks > 0 \/ dsw # "none"))
             \/ (pc[p] = "ackWait" /\ ~CloseWaitWakes /\ ~acked)
+            \/ (pc[p] = "wantUmu" /\ umu = "rl" /\ ~(waiter = "waiting" \/ ResultChBuffered))   \* behind a holder that cannot move (a short critical section is slack)
 Expire(p) == /\ pc[p] \notin {"idle", "done"} /\ ~expired[p]
              /\ expired' = [expired EXCEPT ![p] = TRUE]
              /\ overrun' = [overrun EXCEPT ![p] = Blind(p)]
-             /\ UNCHANGED <<pc, mu, rlocks, dsw, resp, nmeta, acked>>
+             /\ UNCHANGED <<pc, mu, rlocks, dsw, resp, nmeta, acked, ust>>
 
-Next == \/ \E p \in Callers : Call(p) \/ TakeMu(p) \/ WaitReturns(p) \/ AckWaitReturns(p) \/ TakeDsMu(p) \/ Expire(p)
+Next == \/ \E p \in Callers : Call(p) \/ TakeMu(p) \/ WaitReturns(p) \/ AckWaitReturns(p) \/ TakeDsMu(p) \/ Expire(p) \/ TakeUmu(p)
+        \/ WaiterGivesUp \/ ResultArrives \/ HandOver
         \/ \E p \in Callers, a \in Adversary : Decide(p, a)
         \/ AckArrives \/ \E k \in BOOLEAN : Meta(k)
 
 \* fairness: the library's own steps and the timers are fair; the adversary (Decide, AckArrives, Meta) is not
 Fair == /\ \A p \in Callers : WF_vars(TakeMu(p)) /\ WF_vars(WaitReturns(p)) /\ WF_vars(AckWaitReturns(p)) /\ WF_vars(TakeDsMu(p)) /\ WF_vars(Expire(p))
+                               /\ WF_vars(TakeUmu(p))
+        /\ WF_vars(HandOver)
 Spec == Init /\ [][Next]_vars /\ Fair
 
 \* ---- properties
@@ -107,7 +137,10 @@ EveryCallReturns == \A p \in Callers : (pc[p] # "idle") ~> (pc[p] = "done")
 NoOverrun == \A p \in Callers : ~overrun[p]
 \* no input sequence leaves the client holding a lock it never releases
 NoLockLeak == (\A p \in Callers : pc[p] \in {"idle", "done"}) => (mu = "none" /\ rlocks = 0 /\ dsw = "none")
+\* the result loop never sits on the stream lock waiting for a sender that has gone
+NoStuckHandOver == ~(rl = "handing" /\ waiter = "gone" /\ ~ENABLED HandOver)
 
 KindsA == [P1 |-> "open", P2 |-> "meta", P3 |-> "closeUp"]
 KindsB == [P1 |-> "openDown", P2 |-> "closeDown", P3 |-> "read"]
+KindsC == [P1 |-> "write", P2 |-> "state", P3 |-> "closeUp"]
 =============================================================================
